@@ -93,6 +93,7 @@ def Equiv : PyVal → PyVal → Prop
   | .obj _ c xs, .obj _ c' ys => c = c' ∧ ∃ ys', ys'.Perm ys ∧ EquivItems xs ys'
   | .func _ b code _ _, .func _ b' code' _ _ =>
       b.hasSource = b'.hasSource ∧ funcBytes b = funcBytes b' ∧ EquivList code code'
+  | .tyFields _ fs os, .tyFields _ fs' os' => EquivList fs fs' ∧ EquivList os os'   -- fields in definition order
   | _, _ => False
 def EquivList : List PyVal → List PyVal → Prop
   | [], [] => True
@@ -121,7 +122,7 @@ def sortable : PyVal → Bool
   | .dict _ items => keysOK (items.map (·.1)) && sortableItems items
   | .obj _ _ fields => keysOK (fields.map (·.1)) && sortableItems fields
   | .func _ _ code _ _ => sortableList code
-  | .tyFields _ fs os => sortableList fs && sortableList os
+  | .tyFields _ fs os => sortableList fs && sortableList os && decide (os.length ≤ 1)
   | .task _ _ fs priv => sortableItems fs && sortableList priv
   | .ref _ => true
 def sortableList : List PyVal → Bool
